@@ -10,7 +10,7 @@ LEVEL = "exploration"
 FLAVORS = ["asan"]
 RULE = ("flat sibling sets (2-7 equally-preferred populated cgroups) with statistics drawn from small, 2^31/2^32-straddling and up-to-2^62 "
         "ranges, MemTotal/SwapTotal around 2^31 and 2^32, percent / suffixed / bare-MB thresholds, fractional min_growth_ratio, zero "
-        "moving averages, tie-heavy values, two- and three-tick histories for the rate based plugins; for each of the five kill plugins "
+        "moving averages, tie-heavy values, two- and three-tick histories for the rate based plugins, the siblings' parent with none / all / a share of its own protection and (a quarter of the cases) one more level whose overcommitted grandparent decides what the parent gets; for each of the five kill plugins "
         "the first cgroup the real plugin attempts must lie in the arg-max set of the documented policy computed in exact rational "
         "arithmetic (relative band 1e-6 for float32/double rounding) and no cgroup failing the plugin's filter may ever be attempted. "
         "non-trivial = >=1 invocation whose reference arg-max set is a strict subset of the eligible siblings; distinct by scenario hash")
